@@ -1,5 +1,7 @@
 import GeomV.C06.Model
 import GeomV.C06.Spec
+import GeomV.C06.Text
+import Std.Data.HashMap
 import GeomV.C17.Dec
 /-!
 Driver for C06.  `geomv_c06 judge` reads the harness lines (see harness/cmd/c06/main.go)
@@ -72,72 +74,18 @@ def c4Toks (v : List (List (List (List UInt64)))) : Tok := toString v.length :: 
 def coordsToks : Coords UInt64 → Tok
   | .c1 v => "C1" :: c1Toks v | .c2 v => "C2" :: c2Toks v | .c3 v => "C3" :: c3Toks v | .c4 v => "C4" :: c4Toks v
 
-/-! ### a small JSON text parser (RFC 8259), numbers by exact round-to-nearest-even -/
+/-! ### JSON text: the total RFC 8259 parser of Text.lean, numbers by exact round-to-nearest-even -/
 
-def jws (c : Char) : Bool := c = ' ' || c = '\t' || c = '\n' || c = '\r'
-def jNumChar (c : Char) : Bool := Dec.isDigit c || c = '+' || c = '-' || c = '.' || c = 'e' || c = 'E'
+/-- RFC 8259 `number` grammar check + exact decimal → binary64 -/
+def jsonPn (tok : List Char) : Option UInt64 := if Dec.jsonNumberOk tok then Dec.toBits tok else none
 
-partial def pJString (s : List Char) (acc : List Char) : Option (String × List Char) :=
-  match s with
-  | '"' :: r => some (String.ofList acc.reverse, r)
-  | '\\' :: 'u' :: a :: b :: c :: d :: r =>
-    match hexToNat (String.ofList [a, b, c, d]) with
-    | some n => pJString r (Char.ofNat n :: acc)
-    | none => none
-  | '\\' :: e :: r =>
-    let c := match e with
-      | 'n' => some '\n' | 't' => some '\t' | 'r' => some '\r' | 'b' => some (Char.ofNat 8)
-      | 'f' => some (Char.ofNat 12) | '"' => some '"' | '\\' => some '\\' | '/' => some '/' | _ => none
-    match c with
-    | some c => pJString r (c :: acc)
-    | none => none
-  | c :: r => if c.toNat < 32 then none else pJString r (c :: acc)
-  | [] => none
+def parseJson (s : List Char) : Option BTree := Json.parse jsonPn s
 
-mutual
-partial def pJValue (s : List Char) : Option (BTree × List Char) :=
-  match s.dropWhile jws with
-  | 'n' :: 'u' :: 'l' :: 'l' :: r => some (.null, r)
-  | 't' :: 'r' :: 'u' :: 'e' :: r => some (.bool true, r)
-  | 'f' :: 'a' :: 'l' :: 's' :: 'e' :: r => some (.bool false, r)
-  | '"' :: r => (pJString r []).map fun (st, r) => (.str st, r)
-  | '[' :: r =>
-    match r.dropWhile jws with
-    | ']' :: r => some (.arr [], r)
-    | _ => pJElems r []
-  | '{' :: r =>
-    match r.dropWhile jws with
-    | '}' :: r => some (.obj [], r)
-    | _ => pJMembers r []
-  | s =>
-    let tok := s.takeWhile jNumChar
-    if tok.isEmpty || !Dec.jsonNumberOk tok then none
-    else (Dec.toBits tok).map fun b => (.num b, s.dropWhile jNumChar)
-partial def pJElems (s : List Char) (acc : List BTree) : Option (BTree × List Char) := do
-  let (v, r) ← pJValue s
-  match r.dropWhile jws with
-  | ',' :: r => pJElems r (v :: acc)
-  | ']' :: r => some (.arr (v :: acc).reverse, r)
-  | _ => none
-partial def pJMembers (s : List Char) (acc : List (String × BTree)) : Option (BTree × List Char) := do
-  match s.dropWhile jws with
-  | '"' :: r =>
-    let (k, r) ← pJString r []
-    match r.dropWhile jws with
-    | ':' :: r =>
-      let (v, r) ← pJValue r
-      match r.dropWhile jws with
-      | ',' :: r => pJMembers r ((k, v) :: acc)
-      | '}' :: r => some (.obj ((k, v) :: acc).reverse, r)
-      | _ => none
-    | _ => none
-  | _ => none
-end
-
-def parseJson (s : List Char) : Option BTree :=
-  match pJValue s with
-  | some (t, r) => if (r.dropWhile jws).isEmpty then some t else none
-  | none => none
+def pairsOf : Tok → List (UInt64 × List Char)
+  | b :: r :: t => match parseU64 b with
+    | some u => (u, r.toList) :: pairsOf t
+    | none => pairsOf t
+  | _ => []
 
 def hexToText (h : String) : Option (List Char) :=
   (hexToBytes h).bind fun bs => (String.fromUTF8? (ByteArray.mk bs.toArray)).map (·.toList)
@@ -190,7 +138,14 @@ def judgeLine (line : String) : String :=
     | some (g, _) =>
       let cls := "enc-" ++ tagOf g
       let m := toTree fin g
-      match rhs with
+      let res := rhs.takeWhile (· ≠ "|")
+      let table := pairsOf (rhs.drop (res.length + 1))
+      let hm : Std.HashMap UInt64 (List Char) := Std.HashMap.ofList table
+      let fmt : UInt64 → List Char := fun b => (hm.get? b).getD ['?']
+      -- the stdlib contract Json.NumFmt, checked on every finite coordinate that occurs
+      let contractBad := table.filter fun (b, r) =>
+        fin b && !(!r.isEmpty && r.all Json.numChar && jsonPn r == some b)
+      match res with
       | ["ok", h] =>
         if !Rfc.supported g then s!"SPEC {cls} encoder-accepted-unsupported-type"
         else if !Rfc.allFinite fin g then s!"SPEC {cls} encoder-accepted-non-finite-coordinate"
@@ -204,9 +159,14 @@ def judgeLine (line : String) : String :=
             | none => s!"SPEC {cls} not-an-RFC7946-geometry-object-of-the-required-nesting {String.ofList txt}"
             | some g' =>
               if !(Geom.beq g' g) then s!"SPEC {cls} RFC-reading-of-output-differs got={Proto.geomStr g'}"
-              else match m with
-              | .ok mt => if treeEq mt t then s!"OK {cls}" else s!"DIFF {cls} model-tree-differs {String.ofList txt}"
-              | .error e => s!"DIFF {cls} model-errs-{errName e}-impl-encodes"
+              else if !contractBad.isEmpty then s!"DIFF {cls} encoding/json-number-contract-fails-on {u64Hex (contractBad.headD (0, [])).1}"
+              else match m, toGeoJSON g with
+              | .ok mt, .ok o =>
+                if !treeEq mt t then s!"DIFF {cls} model-tree-differs {String.ofList txt}"
+                else if renderGeometry fmt o != txt then s!"DIFF {cls} model-text-differs want={String.ofList (renderGeometry fmt o)} got={String.ofList txt}"
+                else s!"OK {cls}"
+              | .error e, _ => s!"DIFF {cls} model-errs-{errName e}-impl-encodes"
+              | _, .error e => s!"DIFF {cls} model-errs-{errName e}-impl-encodes"
       | ["err", k] =>
         if Rfc.supported g && Rfc.allFinite fin g then s!"SPEC {cls} encoder-rejected-encodable-geometry {k}"
         else match m with
